@@ -11,7 +11,7 @@ import z3
 from . import ops
 from .loader import ClassInfo, ExtModule, Loader, ModuleInfo, builtin_class, has_builtin_class
 from .path import Path, PathEnd
-from .values import (FALSE, MAXLEN, NONE, TRUE, ARR, Guarded, HObj, Lit, Unsupported, V, VBool, VBytes, VFloat,
+from .values import (tid, FALSE, MAXLEN, NONE, TRUE, ARR, Guarded, HObj, Lit, Unsupported, V, VBool, VBytes, VFloat,
                      VInt, VNone, VRef, VStr, VTuple, VUnion, View, as_const, byte_val, concat, fresh,
                      iadd, imax, imin, int2bv, isub, mkbool, mkint, _iv)
 
@@ -230,7 +230,7 @@ class Interp:
     def str_concat(self, a, b):
         if a.c is not None and b.c is not None:
             return VStr(c=a.c + b.c)
-        return self.opaque_str("cat", self.str_term(a).get_id(), self.str_term(b).get_id())
+        return self.opaque_str("cat", tid(self.str_term(a)), tid(self.str_term(b)))
 
     # ------------------------------------------------------------------------------------------
     # module / class namespace
@@ -1063,7 +1063,7 @@ class Interp:
                     for n, v in self.enum_members(base.enum).items():
                         if v == base.c:
                             return VStr(c=n)
-                return self.opaque_str("enumname", base.enum.qualname, (base.b if base.b is not None else base.as_int()).get_id())
+                return self.opaque_str("enumname", base.enum.qualname, tid(base.b if base.b is not None else base.as_int()))
             v = self.class_attr(base.enum, name)
             if isinstance(v, VFunc):
                 if v.kind == "property":
